@@ -11,7 +11,7 @@ from .. import gen, build
 from ..mapmodel import MapModel
 
 ID = "C12"
-CASES = {"quick": 600, "thorough": 30000}
+CASES = {"quick": 1500, "thorough": 30000}
 MIN_CASES_PER_SHARD = 20
 CASE_TIMEOUT = 60
 RULE = ("one case = one integer-labelled random directed graph (3..12 nodes, one-way and two-way streets, anisotropic extent so that "
@@ -204,7 +204,7 @@ def check_case(ctx, case):
 
 
 TECHNIQUE = "runtime monitoring: differential monitor over sibling executions (InMemMap vs SqliteMap on the same graph) with a dict-of-sets model as third opinion"
-LEVEL_TEXT = ("600 (quick) / 30k (thorough) generated integer-labelled graphs loaded in both backends; every listing, neighbour, bounding-box and "
+LEVEL_TEXT = ("{Q} (quick) / {T} (thorough) generated integer-labelled graphs loaded in both backends; every listing, neighbour, bounding-box and "
               "box-restricted query and 2 edge-state matches per graph are compared between the backends and with the model (which attributes a "
               "disagreement to one backend). Held-on-observed.")
 LEVEL_NOTE = ("Trusted: sqlite3, the model. Bounding boxes are allowed the float32 outward rounding of the R-tree index (2.5e-7 relative); "
